@@ -1,0 +1,6 @@
+//go:build verif
+
+package starlarkstruct
+
+// VerifFrozen reports the frozen flag of a struct (read-only).
+func VerifFrozen(s *Struct) bool { return s.frozen }
